@@ -127,12 +127,53 @@ def r5_forwarders(ctx):
                 return r.value.func.value.attr
         return None
 
-    metas = [c for c in repo.all_classes() if "type" in c.base_names and "__instancecheck__" in c.methods and "__subclasscheck__" in c.methods and forwarded_attr(c)]
+    def handler_attr(c):
+        new = c.methods.get("__new__")
+        if new is not None:
+            for d in ast.walk(new.node):
+                if isinstance(d, ast.Dict) and len(d.keys) == 1 and isinstance(d.keys[0], ast.Constant) and isinstance(d.keys[0].value, str):
+                    return d.keys[0].value
+        return None
+
+    metas = [c for c in repo.all_classes() if "type" in c.base_names and "__instancecheck__" in c.methods and "__subclasscheck__" in c.methods and (forwarded_attr(c) or handler_attr(c))]
     ctx.require(len(metas) == 1, f"expected one handler-forwarding metaclass, found {[m.key for m in metas]}")
     mc = metas[0]
-    HATTR = forwarded_attr(mc)
+    HATTR = handler_attr(mc) or forwarded_attr(mc)
+    # by interpretation: each protocol method of the class object answers with what the handler's method of the same
+    # name answers for the same argument
+    from ..metainterp import HostFn, HostInterp, Instance, Raised, Record
+
+    raw = repo.raw_methods(mc)
+    funcs = {n_: g.node for n_, g in mc.module.funcs.items() if g.parent is None and g.cls is None and not g.node.decorator_list}
+    interpreted = {}
+    try:
+        for name in PROTOCOL:
+            if name not in raw:
+                continue
+            asked = []
+            handler = Record(kind="handler")
+            for other in PROTOCOL:
+                setattr(handler, other, HostFn(lambda *a, other=other: asked.append((other, a)) or ("answer of", other)))
+            t = Instance(mc.name, raw)
+            t.__dict__[HATTR] = handler
+            hi = HostInterp(raw, t, {}, globals_env={}, classes={}, functions=funcs)
+            nparams = len([a for a in raw[name].args.posonlyargs + raw[name].args.args]) - 1
+            args = [Record(kind="the argument")][:nparams]
+            got = hi.call_function(raw[name], [t] + args, {}, {})
+            interpreted[name] = got == ("answer of", name) and asked == [(name, tuple(args))]
+    except (AnalysisError, Raised, TypeError, AttributeError) as e:
+        ctx.note(f"{mc.key}: forwarders not interpretable ({e}); statement shape read instead")
+        interpreted = None
     n = 0
-    for name in PROTOCOL:
+    if interpreted is not None:
+        for name, ok in interpreted.items():
+            m = mc.methods.get(name)
+            if m is None:
+                continue
+            ctx.touch(m)
+            n += 1
+            ctx.ob(f"{m.key}:forwards", m.loc(), f"the class object forwards {name} to its handler's {name} with the same argument (interpreted)", ok, f"{mc.name}.{name} does not forward to the handler's method of the same name: isinstance / issubclass / ordering on the type object answer a different question")
+    for name in PROTOCOL if interpreted is None else ():
         m = mc.methods.get(name)
         if m is None:
             continue
